@@ -217,6 +217,103 @@ def explore_msgs(chk, g, n, tag):
                 chk.violation("Message Length differs from the serialised size", inp, len(f["spec"]) // 2, ln)
 
 
+def raw_desc(m):
+    """the message's content as it stands in the objects now: every AVP as a raw (code, flags, vendor, data) token group"""
+    h = m.header
+    toks = []
+    for a in m.avps:
+        vid = a.vendor_id
+        toks.append(" ".join(["X", str(int.from_bytes(a.code, "big")), str(a.flags[0]),
+                              "-" if not vid else str(int.from_bytes(vid, "big")), (a.data or b"").hex() or "-"]))
+    return "msg %d %d %d %d %d %d %d %s" % (h.version[0], h.flags[0], int.from_bytes(h.command_code, "big"),
+                                           int.from_bytes(h.application_id, "big"), int.from_bytes(h.hop_by_hop, "big"),
+                                           int.from_bytes(h.end_to_end, "big"), len(m.avps), " ".join(toks))
+
+
+def explore_mutations(chk, g, n, tag):
+    """a sixth way of arriving at a message: built, then changed through the public mutators (bulk origin re-assignment with
+    the Session-Id regenerated in place, single-AVP update, key renaming, pop, list assignment); afterwards the dump must be
+    the RFC encoding of the content the objects now hold (read back AVP by AVP) and the Message Length its size"""
+    from bromelia.base import DiameterHeader, DiameterMessage
+    from bromelia.avps import SessionIdAVP, OriginHostAVP, OriginRealmAVP, VendorIdAVP, UserNameAVP, ResultCodeAVP
+    r = g.rng
+    msgs, lines, descs = [], [], []
+    idents = ["a", "ab", "abc", "host.example", "relay-01.mme.epc.mnc001.mcc001.3gppnetwork.org", "x" * 63, "h" * 5, "h" * 6, "h" * 7, "h" * 8]
+    for i in range(n):
+        hdr = DiameterHeader(flags=r.choice([0x80, 0x40, 0x00, 0xC0]), command_code=r.choice([257, 272, 316, 8388620]),
+                             application_id=r.choice([0, 4, 16777251]))
+        kids = []
+        if r.random() < 0.85:
+            kids.append(SessionIdAVP(r.choice(idents)) if r.random() < 0.7 else SessionIdAVP((r.choice(idents) + ";1;2").encode()))
+        kids += [OriginHostAVP(r.choice(idents)), OriginRealmAVP(r.choice(idents))]
+        if r.random() < 0.5:
+            kids.append(VendorIdAVP(r.choice([0, 10415])))
+        if r.random() < 0.5:
+            kids.append(UserNameAVP(r.choice(["", "u", "user@realm"])))
+        for _ in range(r.choice([0, 1, 2])):
+            o, _t = g.tree(r.choice([0, 1]))
+            if not isinstance(o, bromgen.Failed):
+                kids.append(o)
+        r.shuffle(kids)
+        steps = []
+
+        def build(kids=kids, steps=steps):
+            m = DiameterMessage(hdr)
+            for k in kids:
+                m.append(k)
+            for _ in range(r.choice([1, 1, 2, 3])):
+                u = r.random()
+                if u < 0.45:
+                    upd = {"origin_host": r.choice(idents)}
+                    if r.random() < 0.3:
+                        upd["origin_realm"] = r.choice(idents)
+                    if r.random() < 0.2 and m.has_avp("vendor_id_avp"):
+                        upd["vendor_id"] = r.choice([0, 1, 10415])
+                    if r.random() < 0.15:
+                        upd["session_id"] = (r.choice(idents) + ";9;9").encode()
+                    if r.random() < 0.5:
+                        upd = dict(reversed(list(upd.items())))
+                    steps.append("update_avps(%r)" % upd)
+                    m.update_avps(upd)
+                elif u < 0.6:
+                    v = r.choice(idents)
+                    steps.append("update_avp(origin_realm_avp, %r)" % v)
+                    m.update_avp("origin_realm_avp", v)
+                elif u < 0.7 and m.has_avp("origin_realm_avp"):
+                    steps.append("update_key(origin_realm_avp -> realm2_avp)")
+                    m.update_key("origin_realm_avp", "realm2_avp")
+                elif u < 0.8 and m.has_avp("origin_host_avp"):
+                    steps.append("pop(origin_host_avp)")
+                    m.pop("origin_host_avp")
+                elif u < 0.9:
+                    steps.append("avps = avps[::-1]")
+                    m.avps = m.avps[::-1]
+                else:
+                    steps.append("session_id_avp.data reassigned + refresh()")
+                    if m.has_avp("session_id_avp"):
+                        m.session_id_avp.data = (r.choice(idents) + ";3;4").encode()
+                        m.refresh()
+            return m
+        m = guarded(build)
+        if isinstance(m, str):
+            chk.count("mutation-rejected:" + m)
+            continue
+        msgs.append((m, steps))
+        lines.append(raw_desc(m))
+    out = core.run_driver(lines)
+    for (m, steps), line, res in zip(msgs, lines, out):
+        f = dict(p.split("=", 1) for p in res.split(" "))
+        inp = {"op": "msg-after-mutators", "steps": steps, "content_now": line[4:][:900]}
+        chk.case(inp, kind="msg-mut:" + tag)
+        impl = guarded(lambda: m.dump().hex())
+        ln = guarded(lambda: m.header.get_length())
+        if f["spec"] != "none":
+            if impl != f["spec"]:
+                chk.violation("after public mutators the dump is not the RFC 6733 encoding of the content the message holds", inp, f["spec"][:600], str(impl)[:600])
+            elif ln != len(f["spec"]) // 2:
+                chk.violation("after public mutators the Message Length differs from the serialised size", inp, len(f["spec"]) // 2, ln)
+
+
 def run(chk):
     rng = random.Random(chk.seed)
     changed, rows = gen_dict.generate()
@@ -233,12 +330,24 @@ def run(chk):
     n = 6000 if chk.tier == "quick" else 300000
     explore_avps(chk, g, n, "sweep")
     explore_msgs(chk, g, n // 3, "sweep")
+    explore_mutations(chk, g, n // 6, "sweep")
+    # the typed message classes (the statement quantifies over them too): built from generated arguments incl. falsy boundary
+    # values, dump compared with the RFC encoding of command + arguments (the table clauses themselves are C09's)
+    import gen_commands
+    from props import c09
+    _c, crows = gen_commands.generate()
+    g2 = bromgen.Gen(rng)
+    g2.override = 0.0
+    g2.generic_unknown_only = True
+    c09.explore(chk, g2, crows, 1 if chk.tier == "quick" else 12, "typed", clauses=False)
     chk.extra["classes_hit"] = len([k for k in g.hits if not k.startswith("kind:") and k != "generic"])
     chk.extra["kinds_hit"] = {k[5:]: v for k, v in g.hits.items() if k.startswith("kind:")}
 
     def search():
         explore_avps(chk, g, 4 * n, "search")
         explore_msgs(chk, g, n, "search")
+        explore_mutations(chk, g, n, "search")
+        c09.explore(chk, g2, crows, 6, "typed-search", clauses=False)
 
     return chk.finish(search)
 
